@@ -32,6 +32,8 @@ for sid in ids:
             print(sid, "PATCH FAILED", r.stdout[-300:], r.stderr[-300:])
             continue
         env = dict(os.environ, VERIF_REPO=tree,
+                   VERIF_EVIDENCE=os.path.join(tree, "_evidence"),
+                   VERIF_REPLAYS=os.path.join(tree, "_replays"),
                    VERIF_CACHE=os.environ.get("MUT_CACHE", "/var/tmp/mutant-cache"))
         det = {}
         for p in props:
